@@ -155,12 +155,24 @@ PROPS = {
     "C13": {
         "level": "proof",
         "lean_modules": ["AnyTLS.Props.C13"],
-        "groups": [{"group": "e2e", "only": "reuse", "quick_cases": 3, "thorough_cases": 40}],
-        "rule": "e2e reuse n = n sequential non-overlapping Client::create_proxy_stream calls (n in 2..12, fixed n = 6) against a real server on loopback behind a counting TCP relay; observed: identity of the session serving each request (renumbered) and number of TLS connections; the Lean pool model predicts both (sequentialRun) and the prediction is compared line by line; non-trivial = every case; distinct by SHA-1 of the op lines",
+        "groups": [{"group": "e2e", "only": "reuse", "quick_cases": 3, "thorough_cases": 40},
+                   {"group": "pool", "quick_cases": 600, "thorough_cases": 10000, "ignore_sigs": ["reaper_closed_busy_session/"]}],
+        "rule": "e2e reuse n = n sequential non-overlapping Client::create_proxy_stream calls (n in 2..12, fixed n = 6) against a real server on loopback behind a counting TCP relay; observed: identity of the session serving each request (renumbered) and number of TLS connections; the Lean pool model predicts both (sequentialRun) and the prediction is compared line by line; pool cases as for C12 (which idle session a request is given: get_idle_session's choice among open and closed entries); non-trivial = every case; distinct by SHA-1 of the op lines",
         "level_text": "the property is FALSE of the code and recorded as a known finding: both full statements are kept (sequential_reuse, bounded_sessions) with kernel-checked refutations (sequential_reuse_refuted: three sequential requests dial twice; bounded_sessions_refuted: six requests leave three sessions open) and the model predicts the real client's behaviour exactly (sessions [0,0,1,1,2,2,...], ceil(n/2) dials; sequential_dials_instances). What does hold is proved: the second of two non-overlapping requests reuses the first one's session for every pool setting (second_request_reuses_partial) and a request dials only when no open idle session exists (dial_only_when_no_idle). Any deviation from the predicted behaviour, in either direction, breaks the correspondence and is reported",
         "level_note": "trusted: Lean kernel, extract.py, harness+driver glue; real loopback TLS sessions; the repair (return the session to the pool when its stream ends) depends on stream completion being tracked (C08's finding)",
         "assumptions": COMMON_ASSUMPTIONS,
         "explanation": "pool/request model with refutations + e2e correspondence + known finding",
+    },
+    "C14": {
+        "level": "proof",
+        "lean_modules": ["AnyTLS.Props.C14"],
+        "groups": [{"group": "hb", "quick_cases": 300, "thorough_cases": 5000}],
+        "rule": "hb case = a real client session with the liveness monitor against a scripted peer under virtual time; fixed: the full grid I in {1,2,3,5,10} s x T in {1,2,3,5,10,20} s (all 30 pairs incl. T<I and T=I) x steady delays {3 ms, T/4, T/2, T-7 ms} x silence {never, from request 0, 1, 5} plus the two regression witnesses; generated: I in {10 ms..5 s}, T in {10 ms..10 s}, 1-8 per-message delays below (and for a few beyond) the timeout, silence from request 0..8 or never; observed: the instant the session closes; "
+                "non-trivial = every case; distinct by SHA-1 of the op line",
+        "level_text": "kernel-checked theorems over the timed model, for every I > 0, T > 0 and every delay sequence: a session whose peer answers every request within less than T is never closed (healthy_never_closed, by the invariant 'a pending mark is the send time of a request whose answer has not arrived'), a session whose peer's last answer arrived at instant a and never answers again is closed within T + I of a (silent_detected, silent_detected_pending, pending_leads_to_close), idle instants are no-ops (idle_instant_noop, idle_none, idle_run: justify the driver's event skipping); Gen obligation gen_mapping (heartbeat interval/timeout := pool check interval / idle timeout; the command line accepts every positive value). Tied to the code by the hb differential run (exact closing instant of the real session) and a bound oracle; the waiters' release on close is C09",
+        "level_note": "trusted: Lean kernel, extract.py, harness+driver glue; tokio interval (first tick immediate, Delay on missed ticks) and sleep_until under the virtual clock; a heartbeat write stuck behind a stalled transport is not modelled (see C09's stall remark); the model's instant processes tick, arrivals, deadline in that order — the harness avoids ties (I, T multiples of 10 ms, delays = 3 mod 10)",
+        "assumptions": COMMON_ASSUMPTIONS,
+        "explanation": "heartbeat timed model theorems + hb correspondence",
     },
 }
 
